@@ -27,7 +27,8 @@ def find_yaml(p, name, ctx):
 
 
 def edit_job(job):
-    p, seed = job
+    p, seed = job[0], job[1]
+    forced = job[2] if len(job) > 2 else None
     rng = random.Random(seed)
     r0 = projrun.run_impl(p)
     if projrun.impl_status(r0) != "ok" or not projcheck.built(r0):
@@ -39,6 +40,10 @@ def edit_job(job):
         return (p, None)
     mname, mctx = rng.choice(cands)
     kind = rng.choice(["local", "export"])
+    if forced is not None:
+        if forced[0] >= len(cands):
+            return (p, None)
+        (mname, mctx), kind = cands[forced[0]], forced[1]
     q = copy.deepcopy(p)
     ym = find_yaml(q, mname, mctx)
     if ym is None or isinstance(ym.get("context"), list):
@@ -119,7 +124,25 @@ def run(chk):
     for p, e in common.parallel_map(worker, jobs):
         judge(chk, p, e)
     chk.assumptions = ["modules that are build dependencies (custom build / download / is_build_dep) are not edited: their outputs legitimately reach dependents"]
-    return chk.finish()
+
+    def search():
+        """the model and the implementation disagree: try every single-variable edit on the disagreeing projects"""
+        tried = 0
+        for what, case in chk.disagree[:6]:
+            p = case.get("project")
+            if not p:
+                continue
+            jobs = [(p, 1, (i, kind)) for i in range(12) for kind in ("local", "export")]
+            for pp, e in common.parallel_map(worker, jobs):
+                tried += 1
+                before = len(chk.oracle_fail)
+                judge(chk, pp, e)
+                if len(chk.oracle_fail) > before:
+                    chk.search_note = f"found after {tried} directed edits on a disagreeing project"
+                    return chk.oracle_fail[-1]
+        chk.search_note = f"{tried} directed edits on the disagreeing projects, no leak found"
+        return None
+    return chk.finish(search)
 
 
 def replay(chk, path):
